@@ -2,6 +2,8 @@ use crate::evidence::{Report, Tier};
 
 pub mod bitreader;
 pub mod common;
+pub mod dequant;
+pub mod idct;
 pub mod inter;
 pub mod intra;
 pub mod deblock;
@@ -15,6 +17,8 @@ pub fn run(id: &str, tier: Tier) -> Option<Report> {
         "C02" => intra::run(tier),
         "C03" => inter::run_c03(tier),
         "C12" => inter::run_c12(tier),
+        "C10" => idct::run(tier),
+        "C11" => dequant::run(tier),
         "C07" => yuv::run_c07(tier),
         "C08" => yuv::run_c08(tier),
         _ => return None,
